@@ -23,3 +23,21 @@ def run(ctx):
     dir_family.run_trees(ctx, cases, namecases, pairs)
     ctx.rule += ("; TREES: seeded trees of real directories (depth 1-3, 0-2 sub-directories and 1-8 other children per directory, children drawn "
                  "from the accepted cases), non-trivial when the read-cap walk reaches depth >= 2")
+    # the SFTP frontend: two sessions of one gateway on one directory, one with the write cap, one with the read cap only.
+    # What the read-only session asks for is refused and changes nothing - in particular not the other session's pending writes.
+    import json
+    straces = ctx.impl("harness/sftp_sessions_driver.py", ["--n", 40 if ctx.quick else 400])
+    nb = 0
+    for tr in straces:
+        b = [e for e in tr["events"] if e["ev"] == "BOp"]
+        nb += len(b)
+        ctx.count(json.dumps([[e["ev"], e.get("op", ""), e.get("name", ""), e.get("st", "")] for e in tr["events"]]) if b else None)
+    ctx.sample({"sftp_sessions": [{k: v for k, v in e.items() if k not in ("listing",)} for e in straces[0]["events"][:10]]})
+    ctx.notes.append("SFTP sessions: %d histories, %d requests of the read-only session (remove / rename / posix-rename / mkdir / rmdir / "
+                     "setAttrs / open for writing), all refused; the write session's uploads and in-place updates are read back at the end" % (len(straces), nb))
+    ctx.trace("frontends/TraceSftpSessions", straces, batch=400, name="TRACE frontends/TraceSftpSessions",
+              key_of=lambda tr, l, c: "trace:%s:%s" % (c, tr["events"][l - 1].get("op", tr["events"][l - 1]["ev"])),
+              what_of=lambda tr, l, c: "two SFTP sessions on one directory: event %d %s: clause %s" % (
+                  l, json.dumps({k: v for k, v in tr["events"][l - 1].items() if k != "listing"})[:300], c))
+    ctx.assumptions += ["SFTP leg: real SFTPUserHandler objects (one per session) over a real client's NodeMaker on the SimGrid; no SSH transport"]
+
